@@ -71,6 +71,12 @@ func init() {
 			}
 			t := i.freshSym(name, 64)
 			i.addPC(i.tc.Cmp("bvult", t, i.tc.Const(64, uint64(n))))
+			// the harness asked for an n-way case split: all n values are explored
+			saved := i.cfg.maxConcretize
+			if int(n) > saved {
+				i.cfg.maxConcretize = int(n)
+			}
+			defer func() { i.cfg.maxConcretize = saved }()
 			return int(i.concretize(sym{t, types.Int}, "vxChoose:"+name))
 		},
 		"vxAssume": func(fr *frame, a []value) value {
